@@ -3141,7 +3141,10 @@ class GeneralGate(Gate):
         """
         Return the inverse operator.
         """
-        return GeneralGate(self.mat.conj().T, self.nwires)
+        invgate = GeneralGate(self.mat.conj().T, self.nwires)
+        if self.prtcl:
+            invgate.on(self.prtcl)
+        return invgate
 
     def on(self, *args):
         """
